@@ -34,6 +34,7 @@ func init() {
 			{ID: "C15.R15", Text: "a checkpoint that cannot be read stops the start-up, a missing one does not (same rule as C02.R17)", Run: cbLoadReader},
 			{ID: "C15.R16", Text: "the high sequence numbers the guard compares with are complete and maximal: every node 1..NumServers() is asked and the merge keeps the largest report per vBucket (exhaustive)", Run: seqnoMerge},
 			{ID: "C15.R17", Text: "start-up fails on what it cannot obtain: the client's start and close paths call by call: the stream is opened, the listener subscribed (failure fatal), each optional component started and stopped under exactly its configuration switch (polarity included), Commit is Stream.Save, SetMetadata installs the supplied store, newDcp applies the defaults first and returns every error", Run: clientWiring},
+			{ID: "C15.R18", Text: "the start-up switch on the metadata type and the stream mode read the documented values: IsCouchbaseMetadata ⇔ type == \"couchbase\", IsFileMetadata ⇔ type == \"file\", IsDcpModeFinite ⇔ mode == \"finite\" (exhaustive)", Run: configPredicates},
 			{ID: "C15.R6", Text: "bounded reopen then fail-stop (same rule as C12.R3)", Run: c12r3},
 		},
 	})
